@@ -70,7 +70,7 @@ def run(ctx):
         n_roots += 1
         try:
             p = res.only()
-        except AssertionError as e:
+        except (AssertionError, KeyError, ValueError, TypeError, IndexError, ZeroDivisionError, AttributeError) as e:
             ctx.ob(r.name + '/paths', False, 'branch-free', r.name, 'one path', str(e)); continue
         k = m['kind']
         if k == 'mat2':
